@@ -44,9 +44,11 @@ package interp
 //@   ensures r == interp.id
 
 //@ func (interp *Interpreter) stop()
-//@   props C09
+//@   props C09 C10
 //@   requires interp != nil
 //@   ensures all-frames-stale: interp.id != old(interp.id)
+//@   ensures [C10] the-cancelled-run-is-told: closed(old(interp.done))
+//@   ensures [C10] later-evaluations-start-with-an-open-done-channel: !closed(interp.done)
 //@   canary interp.id == old(interp.id)
 
 // Call sites of newFrame: the callee / goroutine / wrapper frame inherits the creating frame's id.
@@ -138,7 +140,7 @@ package interp
 // selCases / selChosen / selCalled are ghost names bound by the model of reflect.Select.
 //@ pred isDone(c, f): c.Chan == f.done.Chan && c.Dir == f.done.Dir
 //@ lit recv calls:Select (f) (next)
-//@   props C09
+//@   props C09 C10
 //@   opt loops = havoc
 //@   opt safety = off
 //@   opt ghost-select = true
@@ -147,6 +149,7 @@ package interp
 //@   requires f != nil
 //@   ensures done-raced: selCalled ==> atSelect(isDone(selCases[0], f))
 //@   ensures cancelled-stops: selCalled && selChosen == 0 ==> next == nil
+//@   ensures [C10] cancelled-receive-leaves-its-destination-alone: selCalled && selChosen == 0 ==> getFrame(f, l).data[i] == old(getFrame(f, l).data[i])
 //@   canary selCalled ==> atSelect(isDone(selCases[1], f))
 
 //@ lit recv2 calls:Select (f) (next)
